@@ -45,7 +45,8 @@ pub struct TInterp<'c, E: TElemT> {
 
 fn hasher<E: TElemT>(e: &E) -> u64 {
     world::callback(Class::Hash);
-    e.hash()
+    // under C05 the caller-side hasher is inconsistent with the hash the element was inserted with
+    crate::plan::chaos_hash(e.hash(), || e.hash().rotate_left(17) ^ e.uid())
 }
 
 impl<'c, E: TElemT> TInterp<'c, E> {
@@ -57,7 +58,7 @@ impl<'c, E: TElemT> TInterp<'c, E> {
             tag_param: case.h("tag_p") as u32,
             seed: case.h("seed"),
         };
-        world::with(|w| w.chaos.mode = case.h("chaos") as u32);
+        crate::plan::setup_chaos(case);
         let chaos = case.h("chaos") != 0;
         TInterp {
             case,
@@ -179,7 +180,7 @@ impl<'c, E: TElemT> TInterp<'c, E> {
                 let want = self.find_model(id, hash);
                 let r = self.table.find_mut(hash, |e| {
                     world::callback(Class::Eq);
-                    e.id() == id && e.hash() == hash
+                    crate::elem::chaos_eq(e.id() == id && e.hash() == hash, e.id(), id)
                 });
                 match (r, want.is_empty()) {
                     (Some(e), false) => {
@@ -370,7 +371,7 @@ impl<'c, E: TElemT> TInterp<'c, E> {
         let want = self.find_model(id, hash);
         let r = self.table.find(hash, |e| {
             world::callback(Class::Eq);
-            e.id() == id && e.hash() == hash
+            crate::elem::chaos_eq(e.id() == id && e.hash() == hash, e.id(), id)
         });
         match (r, want.is_empty()) {
             (Some(e), false) => {
@@ -397,7 +398,7 @@ impl<'c, E: TElemT> TInterp<'c, E> {
         let new_uid = self.uid();
         let r = self.table.find_entry(hash, |e| {
             world::callback(Class::Eq);
-            e.id() == id && e.hash() == hash
+            crate::elem::chaos_eq(e.id() == id && e.hash() == hash, e.id(), id)
         });
         match r {
             Ok(mut o) => {
@@ -494,7 +495,7 @@ impl<'c, E: TElemT> TInterp<'c, E> {
             hash,
             |e| {
                 world::callback(Class::Eq);
-                e.id() == id && e.hash() == hash
+                crate::elem::chaos_eq(e.id() == id && e.hash() == hash, e.id(), id)
             },
             hasher::<E>,
         );
@@ -856,11 +857,8 @@ impl<'c, E: TElemT> TInterp<'c, E> {
                 catch_unwind(AssertUnwindSafe(|| -> R {
                     let r = table.get_many_mut(hs, |i, e| {
                         world::callback(Class::Eq);
-                        if by_id_only {
-                            e.id() == keys_ref[i].0
-                        } else {
-                            e.id() == keys_ref[i].0 && e.hash() == keys_ref[i].1
-                        }
+                        let lawful = if by_id_only { e.id() == keys_ref[i].0 } else { e.id() == keys_ref[i].0 && e.hash() == keys_ref[i].1 };
+                        crate::elem::chaos_eq(lawful, e.id(), keys_ref[i].0)
                     });
                     r.into_iter()
                         .enumerate()
